@@ -1,9 +1,130 @@
 /-
 Helper lemmas about `process` and the operation state machine.
+All names live in namespace `Mctp.Proc`.
 -/
 import Mctp.Model.Process
 import Mctp.Lemmas.Decode
 import Mctp.Lemmas.Encode
+import Mctp.Spec.State
 namespace Mctp
+namespace Proc
 
+/-! ### structure of `dispatch` -/
+
+theorem respond_fst (c : Ctx) (dst : B) (e : Enc) (buf : Bytes) : (respond c dst e buf).1 = c := by
+  unfold respond; split <;> rfl
+
+/-- the part of the context `dispatch` may change: the two EID cells and the selector cell -/
+theorem dispatch_fst (c : Ctx) (cmd src : B) (pay : Nat → B) (buf : Bytes) :
+    ∃ r q s, (dispatch c cmd src pay buf).1 = { c with reqEid := r, respEid := q, selector := s } := by
+  unfold dispatch
+  split
+  all_goals (try split)
+  all_goals (try split)
+  all_goals (try split)
+  all_goals (try split)
+  all_goals (simp only [respond_fst])
+  all_goals exact ⟨_, _, _, rfl⟩
+
+/-! ### normal forms of the decoder in terms of the packet bytes -/
+
+theorem byteAt_drop (p : Bytes) (k i : Nat) : byteAt (p.drop k) i = byteAt p (k + i) := by
+  simp [byteAt, List.getD_eq_getElem?_getD]
+
+theorem isRequest_eq_msb (p : Bytes) : Spec.isRequest p = (byteAt p 9).msb := by
+  unfold Spec.isRequest
+  generalize byteAt p 9 = b
+  revert b; apply forall_byte; decide +kernel
+
+/-- `get_mctp_control_packet` on `&packet[9..]`, in terms of the packet -/
+theorem getCtrl_nf (p : Bytes) (h10 : 10 ≤ p.length) :
+    getCtrl (p.drop 9) (calcPec p) =
+      if p.length < 12 then .err (.control, .ctl .len)
+      else if Spec.isRequest p then
+        (reqDataLen (byteAt p 10)).bind fun n =>
+          if byteAt p (p.length - 1) ≠ calcPec p then .err (.control, .ctl .pec)
+          else if n > 0 ∧ p.length - 12 ≠ n then .err (.control, .ctl .len)
+          else .ok ⟨byteAt p 10, true, 2, p.length - 12⟩
+      else if p.length < 13 then .err (.control, .ctl .len)
+      else if byteAt p 11 ≠ 0x00#8 then (ccOf (byteAt p 11)).bind fun c => .err (.control, .ctl (.cc c))
+      else
+        (respDataLen (byteAt p 10)).bind fun n =>
+          if byteAt p (p.length - 1) ≠ calcPec p then .err (.control, .ctl .pec)
+          else if n > 0 ∧ p.length - 13 ≠ n then .err (.control, .ctl .len)
+          else .ok ⟨byteAt p 10, false, 3, p.length - 13⟩ := by
+  unfold getCtrl
+  rw [ctrlSelect_eq, ctrl_cmd_get]
+  simp only [byteAt_drop, List.length_drop, isRequest_eq_msb, Nat.add_zero, Nat.reduceAdd]
+  have e1 : (p.length - 9 < 3) = (p.length < 12) := by simp; omega
+  have e2 : (p.length - 9 < 4) = (p.length < 13) := by simp; omega
+  have e3 : 9 + (p.length - 9 - 1) = p.length - 1 := by omega
+  have e4 : p.length - 9 - 1 - 2 = p.length - 12 := by omega
+  have e5 : p.length - 9 - 1 - 3 = p.length - 13 := by omega
+  simp only [e1, e2, e3]
+  by_cases hl : p.length < 12
+  · simp [hl]
+  · simp only [hl, if_false]
+    by_cases hm : (byteAt p 9).msb = true
+    · simp only [hm, if_true]
+      cases reqDataLen (byteAt p 10) <;> simp [Out.map, Out.bind, e4]
+    · have hm' : (byteAt p 9).msb = false := by simpa using hm
+      simp only [hm', Bool.false_eq_true, if_false]
+      by_cases hl2 : p.length < 13
+      · simp [hl2]
+      · simp only [hl2, if_false]
+        by_cases hcc : byteAt p 11 = 0#8
+        · simp only [ne_eq, hcc, not_true_eq_false, if_false]
+          cases respDataLen (byteAt p 10) <;> simp [Out.map, Out.bind, e5]
+        · simp only [ne_eq, hcc, not_false_eq_true, if_true]
+          cases ccOf (byteAt p 11) <;> simp [Out.bind]
+
+theorem srcEid_eq (p : Bytes) (h : 8 ≤ p.length) :
+    BitVec.ofNat 8 (TransportHdr.sourceEndpointId.get (slice p 4 8)) = byteAt p 6 := by
+  rw [slice_4_8 p h, srcEid_get]
+
+theorem msgTypeOf_control_iff (p : Bytes) : Spec.msgTypeOf p = .control ↔ Spec.isControl p = true := by
+  unfold Spec.msgTypeOf Spec.isControl
+  generalize Spec.typeBits p = b
+  revert b; apply forall_byte; decide +kernel
+
+theorem msgTypeOf_ne_invalid (p : Bytes) (h : Spec.hdrOk p = true) : Spec.msgTypeOf p ≠ .invalid := by
+  unfold Spec.hdrOk at h
+  unfold Spec.msgTypeOf
+  generalize Spec.typeBits p = b at h ⊢
+  simp only [Bool.and_eq_true, Bool.or_eq_true, beq_iff_eq] at h
+  rcases h.2 with (((h | h) | h) | h) | h <;> subst h <;> decide
+
+theorem vendorArm_eq (p : Bytes) (t : MsgType) (h : p ≠ []) :
+    vendorArm p (calcPec p) t =
+      if Spec.pecOk p then .ok (t, 9, p.length - 10) else .err (t, .ctl .pec) := by
+  unfold vendorArm
+  rw [pecOk_eq p h]
+  by_cases hb : byteAt p (p.length - 1) = calcPec p
+  · simp [hb]; omega
+  · simp [hb]
+
+/-- `decode_packet`, second normal form: specification predicates only, control arm kept -/
+theorem decode_nf (p : Bytes) :
+    decode p =
+      if p.length < 10 ∨ Spec.hdrOk p = false then .err (.invalid, .unknown)
+      else if Spec.isControl p then
+        (getCtrl (p.drop 9) (calcPec p)).bind fun c => .ok (.control, 9 + c.off, c.dataLen)
+      else if Spec.pecOk p then .ok (Spec.msgTypeOf p, 9, p.length - 10)
+      else .err (Spec.msgTypeOf p, .ctl .pec) := by
+  rw [decode_eq]
+  by_cases h10 : p.length < 10
+  · simp [h10]
+  by_cases hh : Spec.hdrOk p = true
+  rotate_left
+  · simp [hh]
+  have hne : p ≠ [] := by intro h; subst h; simp at h10
+  simp only [h10, hh, if_false, Bool.not_true, false_or, Bool.true_eq_false, Bool.false_eq_true]
+  by_cases hc : Spec.isControl p = true
+  · rw [(msgTypeOf_control_iff p).mpr hc]; simp [hc]
+  · have h1 := msgTypeOf_ne_invalid p hh
+    have h2 := mt (msgTypeOf_control_iff p).mp hc
+    simp only [hc, if_false, Bool.false_eq_true]
+    cases ht : Spec.msgTypeOf p <;> simp_all [vendorArm_eq]
+
+end Proc
 end Mctp
